@@ -130,7 +130,8 @@ pub fn uncontrolled_hook(ev: Ev) {
         other => {
             // inner points of a background merge / sync: hook events on the worker's blocking pool
             let t = std::thread::current();
-            if t.name().map_or(false, |n| n.starts_with("tokio-runtime-w")) {
+            // (and on a thread of the harness that performs a handle operation to be held: "vh-user")
+            if t.name().map_or(false, |n| n.starts_with("tokio-runtime-w") || n.starts_with("vh-user")) {
                 let mut st = CTL.m.lock().unwrap();
                 st.inner_seen += 1;
                 if st.hold_inner == Some(st.inner_seen) {
@@ -721,7 +722,31 @@ pub fn c17_case(dir: &Path, c: &C17Case) -> Result<String, V> {
             }
         }
         let mut held: Option<String> = None;
-        if c.at == "sleeping" {
+        let mut user: Option<std::thread::JoinHandle<Result<(), String>>> = None;
+        if c.at.starts_with("user:") {
+            // an operation of ANOTHER thread is in flight when the owner is dropped: it is held at
+            // its n-th hook point (pool pop, KeyDir access, writer lock, pool push ...)
+            set_holds(vec![], Some(inner_seen() + c.inner));
+            let h2 = h.clone();
+            let op = c.at[5..].to_string();
+            user = Some(
+                std::thread::Builder::new()
+                    .name("vh-user-op".into())
+                    .spawn(move || match op.as_str() {
+                        "get" => h2.get(b("k")).map(|_| ()).map_err(|e| e.to_string()),
+                        "set" => h2.set(b("k"), b("v9")).map_err(|e| e.to_string()),
+                        _ => h2.del(b("j")).map(|_| ()).map_err(|e| e.to_string()),
+                    })
+                    .unwrap(),
+            );
+            match wait_held(Duration::from_millis(1500)) {
+                Some(x) => held = Some(x),
+                None => {
+                    let _ = user.take().unwrap().join();
+                    return Ok("gate-position-not-reached".into());
+                }
+            }
+        } else if c.at == "sleeping" {
             // the worker sleeps with its next timer half a period (virtual) away
             std::thread::sleep(Duration::from_millis(1));
         } else {
@@ -791,6 +816,23 @@ pub fn c17_case(dir: &Path, c: &C17Case) -> Result<String, V> {
         iohook::vtime_hold(false);
         iohook::vtime_limit_ms(None);
         let _ = dropper.join();
+        if let Some(u) = user.take() {
+            // the operation that was in flight: it returns its result or "closed", it does not panic
+            match u.join() {
+                Err(_) => return Err(("operation-in-flight-at-the-drop-panics".into(), format!("{} held at {:?} while the store was dropped panicked when it went on", c.at, held))),
+                Ok(Ok(())) => match &c.at[5..] {
+                    "set" => {
+                        model.insert(b"k".to_vec(), b"v9".to_vec());
+                    }
+                    "del" => {
+                        model.remove(&b"j"[..]);
+                    }
+                    _ => {}
+                },
+                Ok(Err(e)) if e.contains("closed") => {}
+                Ok(Err(e)) => return Err(("operation-in-flight-at-the-drop-fails".into(), format!("{} held at {:?} while the store was dropped returned {}", c.at, held, e))),
+            }
+        }
         if drop_waited {
             log_len_at_drop = iohook::grec_snapshot().len();
             for (what, r) in [("set", h.set(b("x"), b("y")).map(|_| ()).map_err(|e| e.to_string())), ("get", h.get(b("k")).map(|_| ()).map_err(|e| e.to_string())), ("del", h.del(b("k")).map(|_| ()).map_err(|e| e.to_string())), ("merge", h.verif_merge().map_err(|e| e.to_string())), ("sync", h.verif_sync().map_err(|e| e.to_string()))] {
@@ -901,6 +943,14 @@ fn c17_cases(tier: Tier) -> Vec<C17Case> {
             for tick in 1..=3usize {
                 let base = C17Case { at: String::new(), inner: 0, tick, trigger_met, merge_never, sync_interval, cycles: 0, drop_fault: false, window: 0 };
                 v.push(C17Case { at: "sleeping".into(), cycles: if tick == 1 { cycles } else { 0 }, ..base.clone() });
+                // operations of other threads in flight at the drop
+                if tick == 1 && !sync_interval && (merge_never || !trigger_met) {
+                    for op in ["user:get", "user:set", "user:del"] {
+                        for inner in 1..=tier.pick(5, 8) {
+                            v.push(C17Case { at: op.into(), inner, ..base.clone() });
+                        }
+                    }
+                }
                 // the same drop with every file-system call of the drop itself failing (an error
                 // inside drop must not leave the store half closed)
                 v.push(C17Case { at: "sleeping".into(), drop_fault: true, ..base.clone() });
